@@ -207,6 +207,13 @@ pub struct Run {
     pub blobs: Vec<Oid>,
     pub sigs: Vec<Signature>,
     pub ids: Vec<Oid>,
+    /// tips of the evaluated (pruned) history, as op indices
+    pub tips: Vec<usize>,
+    /// ops still in the evaluated history
+    pub survivors: Vec<usize>,
+    /// full serialisation of the evaluated identity
+    pub json: String,
+    pub repo_key: String,
 }
 
 pub fn doc_of(w: &World, i: usize, delegates: &[usize]) -> Result<Doc, String> {
@@ -348,6 +355,8 @@ pub fn run_case(w: &mut World, repos: &mut Repos, case: &mut IdCase) -> Result<R
         repo.update(&key, &type_name, &object, &ids[t]).map_err(|e| e.to_string())?;
         holders.push(key);
     }
+    let mut hist_tips: Vec<usize> = vec![];
+    let mut survivors: Vec<usize> = vec![];
     let res = catch(|| cob::get::<Traced<Identity>, _>(repo, &type_name, &object));
     for h in &holders {
         let _ = cob::object::Storage::remove(repo, h, &type_name, &object);
@@ -355,13 +364,17 @@ pub fn run_case(w: &mut World, repos: &mut Repos, case: &mut IdCase) -> Result<R
     let traced = match res {
         Err(_) => {
             case.order = vec![];
-            return Ok(Run { output: "init-panic".into(), steps: vec![], init: None, docs, blobs, sigs, ids });
+            return Ok(Run { output: "init-panic".into(), steps: vec![], init: None, docs, blobs, sigs, ids, tips: vec![], survivors: vec![], json: String::new(), repo_key: rkey });
         }
         Ok(Err(_)) | Ok(Ok(None)) => {
             case.order = vec![];
-            return Ok(Run { output: "init-err".into(), steps: vec![], init: None, docs, blobs, sigs, ids });
+            return Ok(Run { output: "init-err".into(), steps: vec![], init: None, docs, blobs, sigs, ids, tips: vec![], survivors: vec![], json: String::new(), repo_key: rkey });
         }
-        Ok(Ok(Some(c))) => c.object,
+        Ok(Ok(Some(c))) => {
+            hist_tips = c.history.tips().iter().filter_map(|t| ids.iter().position(|i| i == t)).collect();
+            survivors = (0..ids.len()).filter(|i| c.history.graph().contains(&ids[*i])).collect();
+            c.object
+        }
     };
     let mut order = vec![];
     let mut steps = vec![];
@@ -380,7 +393,9 @@ pub fn run_case(w: &mut World, repos: &mut Repos, case: &mut IdCase) -> Result<R
         if res_s.is_empty() { "-".into() } else { res_s },
         show_identity(w, &ids, &blobs, &sigs, &traced.inner)?
     );
-    Ok(Run { output: out, steps, init: Some(traced.init), docs, blobs, sigs, ids })
+    hist_tips.sort();
+    let json = serde_json::to_string(&traced.inner).unwrap_or_default();
+    Ok(Run { output: out, steps, init: Some(traced.init), docs, blobs, sigs, ids, tips: hist_tips, survivors, json, repo_key: rkey })
 }
 
 pub fn idx_of(ids: &[Oid], s: &str) -> String {
@@ -645,3 +660,57 @@ pub fn gen_case(rng: &mut Rng) -> String {
     render(&IdCase { repo_doc: 0, docs, sigs, vtable: vec![], order: vec![], ops })
 }
 
+
+/// Result of evaluating the surviving sub-history on its own.
+pub struct SubRun {
+    pub output: String,
+    /// (op, accepted?, number of concurrent entries)
+    pub steps: Vec<(usize, bool, usize)>,
+    pub order: Vec<(usize, bool)>,
+    pub json: String,
+    pub tips: Vec<usize>,
+}
+
+/// Evaluate the history reachable from `tips` (op indices of the already stored history of `run`) with
+/// the real `ChangeGraph::load` + `evaluate` + `Identity::apply`.
+pub fn eval_sub(w: &World, repos: &Repos, run: &Run, tips: &[usize]) -> Result<SubRun, String> {
+    let repo = repos.repos.get(&run.repo_key).ok_or("no repository")?;
+    let refs: Vec<radicle_cob::object::Reference> = tips
+        .iter()
+        .enumerate()
+        .map(|(j, t)| radicle_cob::object::Reference {
+            name: radicle::git::RefString::try_from(format!("refs/verif/tip{j}")).unwrap(),
+            target: radicle_cob::object::Commit { id: run.ids[*t] },
+        })
+        .collect();
+    let object = cob::ObjectId::from(run.ids[0]);
+    let res = catch(|| radicle_cob::verif::get_from_tips::<Traced<Identity>, _>(repo, &refs, &cob::identity::TYPENAME, &object));
+    let c = match res {
+        Err(_) => return Ok(SubRun { output: "init-panic".into(), steps: vec![], order: vec![], json: String::new(), tips: vec![] }),
+        Ok(Err(_)) | Ok(Ok(None)) => {
+            return Ok(SubRun { output: "init-err".into(), steps: vec![], order: vec![], json: String::new(), tips: vec![] })
+        }
+        Ok(Ok(Some(c))) => c,
+    };
+    let mut steps = vec![];
+    let mut order = vec![];
+    let mut res_s = String::new();
+    for s in &c.object.trace {
+        let k = run.ids.iter().position(|i| *i == s.id).ok_or("unknown entry in trace")?;
+        steps.push((k, s.ok, s.concurrent));
+        order.push((k, s.concurrent > 0));
+        res_s.push(if s.ok { 'o' } else { 'e' });
+    }
+    let mut tips2: Vec<usize> = c.history.tips().iter().filter_map(|t| run.ids.iter().position(|i| i == t)).collect();
+    tips2.sort();
+    let output = format!(
+        "r={};{}",
+        if res_s.is_empty() { "-".into() } else { res_s },
+        show_identity(w, &run.ids, &run.blobs, &run.sigs, &c.object.inner)?
+    );
+    Ok(SubRun { output, steps, order, json: serde_json::to_string(&c.object.inner).unwrap_or_default(), tips: tips2 })
+}
+
+pub fn show_order(order: &[(usize, bool)]) -> String {
+    show_list(&order.iter().map(|(i, c)| format!("{i}.{}", *c as u8)).collect::<Vec<_>>(), ",")
+}
